@@ -528,6 +528,12 @@ class X86_64Arch(Architecture):
                 dst = instructions.RmMemDisp(rsp, 0)
                 src = instructions.RmMemDisp(rbp, push_reg.offset)
                 yield from self.gen_memcpy(dst, src, push_reg.size)
+            elif isinstance(push_reg, registers.XmmRegisterDouble):
+                yield self.push(push_reg)
+            elif isinstance(push_reg, registers.XmmRegisterSingle):
+                # A float occupies the low half of its eightbyte:
+                yield SubImm(rsp, 4)
+                yield self.push(push_reg)
             else:  # pragma: no cover
                 raise NotImplementedError(str(push_reg))
 
